@@ -165,6 +165,9 @@ def app_message(seed, side, k, law="small", charset="ascii"):
         n = r.choice([0, 5, 40, 300, 2000, 5000, 9000])
     if n:
         m[FTag.Text] = rand_text(r, n, _ALPH_ASCII if (not str(mtype).isascii() and r.random() < 0.6) else alph)
+        if charset != "surrogate" and r.random() < 0.08:
+            # printf-style pieces: a value is data, never a format string
+            m.set(FTag.Text, m[FTag.Text] + r.choice([" 5%% off", " %s %d", " 100%", " %(x)s", " {0} {}"]), replace=True)
     if r.random() < 0.4:
         m.set_group(
             FTag.NoPartyIDs,
